@@ -175,17 +175,15 @@ def commitBranch (a : Acc) : Acc :=
 def gateOpen (a : Acc) : Bool := a.v.latestIdx = a.v.committedIdx && decide (a.v.commit ≥ a.lead.cm.startIndex)
 
 /-- `startStopReplication`: a routine for every other server of the latest configuration (a new
-    one starts with an idle heartbeat routine); routines of servers no longer listed are stopped -/
+    one starts with an idle heartbeat routine); routines of servers no longer listed are stopped
+    (how long the heartbeat routine of a removed server lingers depends on what its replication
+    routine is doing; the stepped runs leave such a heartbeat unanswered) -/
 def restartPeers (l : Lead) (c : Config) : Lead :=
   let ps := peerIds c
   { l with peers := ps,
            hbs := ps.map (fun p => match l.hbs.find? (·.peer = p) with
                                    | some h => h
-                                   | none => ⟨p, none, [], false⟩)
-                  -- the heartbeat of a removed server that is still in the network will be answered,
-                  -- and its answer counted; nothing further is sent
-                  ++ (l.hbs.filter (fun h => !ps.contains h.peer && h.carrying.isSome)).map
-                       (fun h => { h with waiting := [], dead := true }) }
+                                   | none => ⟨p, none, [], false⟩) }
 
 /-- `appendConfigurationEntry` -/
 def appendConfig (cf : Cfg) (a : Acc) (id : Nat) (ch : CF.Change) (fail : Bool) : Acc :=
